@@ -89,4 +89,41 @@ structure Closure where
   impure : Nat          -- number of purity findings (time.Now, rand, map-range feeding a slice …) in reachable code
 deriving Repr
 
+/-! ### names of the owned objects
+
+Every object handed to `CreateOrUpdate` gets its `metadata.name` from an expression over the cluster
+name.  The translator resolves it to `concat suffix` (`fmt.Sprintf("%s<suffix>", cluster.Name)`, directly,
+through a one-line helper, or through a struct field filled at every call site) or `other` (anything
+that computes: cut, trim, hash …).  Strings are byte lists. -/
+
+inductive NameForm where
+  | concat (suffix : List Nat)
+  | other
+deriving Repr, DecidableEq
+
+structure NameSite where
+  closure : Nat          -- index of the CreateOrUpdate site
+  kind : Nat             -- interned object kind (names only have to differ within a kind)
+  form : NameForm
+deriving Repr, DecidableEq
+
+/-- the name the site gives its object for cluster name `n` (`none`: not modelled) -/
+def renderName (n : List Nat) : NameForm → Option (List Nat)
+  | .concat s => some (n ++ s)
+  | .other => none
+
+def distinctSuffix : NameForm → NameForm → Bool
+  | .concat s1, .concat s2 => s1 != s2
+  | _, _ => false
+
+/-- table obligation: within a kind, every two rows are plain concatenations with different suffixes
+(a row of form `other` fails the obligation against every other row of its kind) -/
+def namesOk (t : List NameSite) : Prop :=
+  t.Pairwise fun a b => a.kind = b.kind → distinctSuffix a.form b.form = true
+
+instance (t : List NameSite) : Decidable (namesOk t) := by unfold namesOk; infer_instance
+
+/-- a name helper that cuts to `cap` bytes (what `other` may hide) -/
+def cutName (cap : Nat) (n s : List Nat) : List Nat := (n ++ s).take cap
+
 end KafVerif.Operator
